@@ -491,6 +491,24 @@ func c02One(r *Result, seedMark int64, soft bool) {
 				Note: "WHERE " + realWhere})
 			continue
 		}
+		if prop == "C08" {
+			// C08 judges soft-delete visibility only (row-set exactness is C02's claim): no returned / updated /
+			// re-deleted row may be one of the soft-deleted twins
+			if fin != "count" {
+				for _, id := range got {
+					if id > len(rows)/2 {
+						if !flags.Sound && listed("F2-C08-or-raw-regroup") {
+							r.KnownFinding("F2-C08-or-raw-regroup", "a soft-deleted row is returned/affected by "+fin)
+						} else {
+							r.Violate(Violation{Kind: "e2e", Suite: suite, Input: mk(fin, usePK), Observed: got,
+								Expected: "no soft-deleted id (ids above " + fmt.Sprint(len(rows)/2) + " are the soft-deleted twins)", Note: "WHERE " + realWhere})
+						}
+						break
+					}
+				}
+			}
+			continue
+		}
 		if accepted(got, accept, fin == "count") {
 			continue
 		}
@@ -498,9 +516,6 @@ func c02One(r *Result, seedMark int64, soft bool) {
 		if id != "" && isListed {
 			r.KnownFinding(id, "rows differ from the logical combination of the units")
 			continue
-		}
-		if prop == "C08" {
-			continue // C08 judges only soft-delete visibility (c08.go); row-set exactness is C02's claim
 		}
 		sort.Ints(got)
 		r.Violate(Violation{Kind: "e2e", Suite: suite, Input: mk(fin, usePK), Observed: got, Expected: strict,
